@@ -4,8 +4,9 @@
 (T) guarded functions carrying state, event and time triggers (both subsystems) driven through
     generated timelines on the virtual clock, incl. occurrences exactly at window end points and
     at hold_off boundaries, and direct calls; validated by spec/GuardTrace.tla.
-The window *function* (range()/cron() forms, +-1us end points) is bound separately through
-spec/TimeSpec.tla (see harness/drivers/c07win.py if present).
+The window *function* (all range()/cron() forms: daily, dated, weekday, sunrise/sunset, now-relative,
+wrapping; end points +-1 us) is bound at function level through spec/TimeSpec.tla!Active (generator and
+acceptor shared with C06: harness/drivers/c06.py active_cases / judge_active).
 """
 import copy
 import json
@@ -240,6 +241,16 @@ def main(ctx):
     ctx.cov["witnesses_violated_as_expected"] = len(wnames)
     cases = [x for r in outs[4] for x in r]
     res, nm = validate(ctx, cases, "main")
+    # window function level: every range()/cron() form, end points +-1 us, through the real timer_active_check,
+    # decided by spec/TimeSpec.tla!Active via spec/TimeTrace.tla (generator and acceptor shared with C06)
+    from harness.drivers import c06
+    nwin = ctx.pick(1200, 24000)
+    wjobs = [{"seed": ctx.seed * 1000 + 500 + k, "count": nwin // 12, "extra": c06.witness_active_cases() if k == 0 else []} for k in range(12)]
+    wcases = [x for r in run_workers("harness.drivers.c06", "work_active", wjobs, ctx.scratch, nproc=12) for x in r]
+    before = ctx.cov["traces_validated_against_impl"]
+    c06.judge_active(ctx, wcases, "c07windows", level="active")
+    ctx.cov["window_cases_validated"] = ctx.cov["traces_validated_against_impl"] - before
+    ctx.cov["window_shapes"] = sorted({"+".join(c.get("shape", [])) for c in wcases})[:40]
     rejected = {r["id"] for r in res.rejects}
     ctx.cov["evaluations"] = len(cases)
     ctx.cov["masked_cases"] = sum(1 for c in cases if c["masked"])
